@@ -158,15 +158,37 @@ def check_cart(ctx, case):
     if region.num_nodes != nc:
         ctx.violation("wrong_number_of_cells", {"got": region.num_nodes, "want": nc})
         return
-    # the file's first row defines the inferred spacing
+    # every cell's polygon is the row's box (origin first), in file order
+    for k, (i, j) in enumerate(L.cells):
+        box = {(float(org[k][0]), float(org[k][1])), (float(org[k][0]), L._coord(L.lat0, j + 1)),
+               (L._coord(L.lon0, i + 1), L._coord(L.lat0, j + 1)), (L._coord(L.lon0, i + 1), float(org[k][1]))}
+        pts_k = region.polygons[k].points
+        if tuple(float(t) for t in pts_k[0]) != (float(org[k][0]), float(org[k][1])) or {tuple(float(t) for t in q) for q in pts_k} != box:
+            ctx.violation("cell_polygon_differs_from_file_box", {"cell": k, "got": [list(map(float, q)) for q in pts_k], "want": sorted(box)})
+            break
+    # the first row defines the inferred spacing
     inferred = float(rows[0][3] - rows[0][2])
     all_active = all(f == 1 for f in flags)
     base = rates.copy()
     factor = check_forecast_common(ctx, fore, base, case["history"], edges)
     if factor is False:
         return
-    if all_active:
-        pass  # sum over all rows == sum of the rate column (done in common: base holds every row)
+    # spatial marginal laid out on the bounding-box grid: active cells hold their row sums, everything else is NaN
+    o = call(lambda: fore.spatial_counts(cartesian=True))
+    if not o.ok:
+        ctx.unexpected(o, "spatial_counts_cartesian")
+    else:
+        g = numpy.asarray(o.value, dtype=float)
+        fac = factor if isinstance(factor, numpy.ndarray) else numpy.full(base.shape, factor)
+        rowsum = (base * fac).sum(axis=1)
+        if g.shape != (L.ny, L.nx):
+            ctx.violation("spatial_counts_cartesian_shape", {"got": list(g.shape), "want": [L.ny, L.nx]})
+        else:
+            for k, (i, j) in enumerate(L.cells):
+                v = g[j - L.j0, i - L.i0]
+                if flags[k] == 1 and not abs(v - rowsum[k]) <= (RT[0] + 1e-12) * abs(rowsum[k]):
+                    ctx.violation("spatial_counts_cartesian_wrong", {"cell": k, "got": float(v), "want": float(rowsum[k])})
+                    break
     # ---- lookups
     alt = L.with_spacing(float(region.dh)) if float(region.dh) != L.fdh else None
     if alt is not None:
